@@ -34,3 +34,31 @@ def run (T D : Nat) (att : Nat → Att) : Nat → Nat → Nat → Option (Nat ×
       else run T D att f (i + 1) (tEnd + a.backoff)
 
 end Bmc.Proto.Timing
+
+namespace Bmc.Proto.Timing
+
+/-- a blocking call made of steps run one after another under the SAME caller's context — the session handshake (Open
+    Session, RAKP 1, RAKP 3 exchanges), one SDR walk (repository info, reservation, header and body reads, repository
+    info again), session close: each step is a retry loop of its own; the call stops at the first step that fails -/
+def runSeq (T D : Nat) (fuel : Nat) : List (Nat → Att) → Nat → Option (Nat × Bool)
+  | [], now => some (now, true)
+  | att :: rest, now =>
+    match run T D att fuel 0 now with
+    | none => none
+    | some (t, false) => some (t, false)
+    | some (t, true) => runSeq T D fuel rest t
+
+/-- `RetrieveSDRRepository`: an OUTER `backoff.Retry(…, backoff.WithContext(_, ctx))` whose operation is a whole walk
+    (a `runSeq`); `walk i` = the steps of the i-th walk, `backoff i` = the interval proposed after it failed -/
+def runOuter (T D : Nat) (fuel : Nat) (walk : Nat → List (Nat → Att)) (backoff : Nat → Nat) : Nat → Nat → Nat → Option (Nat × Bool)
+  | 0, _, _ => none
+  | f + 1, i, now =>
+    if D ≤ now then some (now, false) else
+    match runSeq T D fuel (walk i) now with
+    | none => none
+    | some (t, true) => some (t, true)
+    | some (t, false) =>
+      if D ≤ t || D - t < backoff i then some (t, false)
+      else runOuter T D fuel walk backoff f (i + 1) (max (t + backoff i) (now + 1))   -- a failed walk took at least a tick (A3)
+
+end Bmc.Proto.Timing
